@@ -35,6 +35,7 @@ func checkLockPairing(c *Ctx, r *Result, lfs *LockFlows, rule string, funcs []*s
 		}
 		n += acq
 		bad := map[string]ssa.Instruction{}
+		pend := map[string]ssa.Instruction{}
 		for _, ex := range lf.Exit {
 			if ex.Instr.Block() == fn.Recover {
 				continue
@@ -52,6 +53,13 @@ func checkLockPairing(c *Ctx, r *Result, lfs *LockFlows, rule string, funcs []*s
 						bad[p] = ex.Instr
 					}
 				}
+				if (strings.HasPrefix(k, "PD:") || strings.HasPrefix(k, "RPD:")) && m != c0 {
+					// a registered deferred release will run although the lock is not held here
+					p := k[strings.Index(k, ":")+1:]
+					if _, dup := pend[p]; !dup {
+						pend[p] = ex.Instr
+					}
+				}
 			}
 		}
 		var paths []string
@@ -65,6 +73,21 @@ func checkLockPairing(c *Ctx, r *Result, lfs *LockFlows, rule string, funcs []*s
 			r.Instance(rule, site, pos, "finding", "lock may be held at function exit", true)
 			r.Report(Finding{Rule: rule, Site: site, Pos: pos,
 				Msg: fmt.Sprintf("%s: %s (%s) may still be held when the function exits here — an acquisition without a release on this path", key, p, lf.ClassOf[p])})
+		}
+		var pps []string
+		for p := range pend {
+			pps = append(pps, p)
+		}
+		sort.Strings(pps)
+		for _, p := range pps {
+			site := sanitizeSite(key + "#deferred-release-unheld:" + lf.ClassOf[p])
+			pos := c.Pos(c.InstrPos(pend[p]))
+			r.Instance(rule, site, pos, "finding", "deferred release of a lock not held at exit", true)
+			r.Report(Finding{Rule: rule, Site: site, Pos: pos,
+				Msg: fmt.Sprintf("%s: on a path to this exit the deferred release of %s (%s) runs while the lock is not held (an unlock/relock window that does not relock): unlocking an unlocked mutex is a fatal runtime error", key, p, lf.ClassOf[p])})
+		}
+		if len(pps) > 0 {
+			paths = append(paths, pps...)
 		}
 		for _, is := range lf.Issues {
 			site := sanitizeSite(key + "#" + is.What + ":" + lf.ClassOf[is.Path])
